@@ -238,7 +238,8 @@ def obj_attr(lib, ex, base, attr, st, lineno):
     if base.kind == "event" and attr == "resourcename":
         return [(VObj(sel(st, "resourcename", base.t), "store"), st)]
     if base.kind == "item" and attr == "id":
-        return [(VOpaque("item-id"), st)]
+        # identifiers are arbitrary user strings: two different items may carry the same id
+        return [(VObj(sel(st, "item_id", base.t), "idval"), st)]
     if base.kind == "item" and attr == "items" and "__pallet_items" in st.f:
         pp = getattr(ex.ctx.con, "pallet_param", None)
         if pp and pp in ex.ctx.args:
